@@ -91,14 +91,6 @@ theorem step_work_err (C : Cfg Pkt) (W : Worker S Pkt Out) (s : State S Pkt Out)
 
 /-! ### counting outcomes -/
 
-def nQueued (s : State S Pkt Out) : Nat := s.outcomes.countP (fun x => match x.2 with | .queued _ => true | _ => false)
-def nFull (s : State S Pkt Out) : Nat := s.outcomes.countP (fun x => match x.2 with | .droppedFull _ => true | _ => false)
-def nFullAt (s : State S Pkt Out) (w : Nat) : Nat := s.outcomes.countP (fun x => decide (x.2 = .droppedFull w))
-def nUnroutable (s : State S Pkt Out) : Nat := s.outcomes.countP (fun x => decide (x.2 = .droppedUnroutable))
-/-- Packets that a dispatch call reported `Queued` on worker `w`, in order. -/
-def queuedAt (s : State S Pkt Out) (w : Nat) : List Pkt :=
-  s.outcomes.filterMap (fun x => if x.2 = .queued w then some x.1 else none)
-
 /-! ### the three invariants -/
 
 /-- Counters + owed increments account for exactly the outcomes returned. -/
